@@ -493,6 +493,8 @@ class Interp:
             return BoundMethod(obj, attr)
         if isinstance(obj, FuncRef) and obj.kind == "builtin":
             return FuncRef("builtin", obj.name + "." + attr)
+        if obj is None:
+            raise RaiseExc("AttributeError", node)
         raise Unsupp(f"attribute {attr} of {obj!r}")
 
     def e_Subscript(self, n, env):
@@ -1302,6 +1304,11 @@ class Interp:
             if extra_inv is not None:
                 r = self.and_(extra_inv(e), r)
             return r
+        if ls.axioms is not None:
+            ns0 = NS({k: v for k, v in env.items() if not k.startswith("__")}, at_entry=NS(entry_snap), old=NS(self.old_args),
+                     ghost=NS(ctx.ghost))
+            for ax in ls.axioms(ns0):
+                ctx.assume(ax)
         ctx.prove(inv_holds(env), f"loop{ordinal}@{s.lineno}/inv-init")
         # havoc everything the body may modify
         mod = assigned_names(s.body) | set(extra_mod)
@@ -1316,6 +1323,14 @@ class Interp:
         for path in sorted(mutated_attr_paths(s.body)):
             self.havoc_path(env, path, ls)
         ctx.assume(inv_holds(env))
+
+        def add_axioms(e):
+            if ls.axioms is not None:
+                ns = NS({k: v for k, v in e.items() if not k.startswith("__")}, at_entry=NS(entry_snap), old=NS(self.old_args),
+                        ghost=NS(ctx.ghost))
+                for ax in ls.axioms(ns):
+                    ctx.assume(ax)
+        add_axioms(env)
         measure0 = ls.decreases(NS(env)) if ls.decreases else None
         if ctx.branch(self.truthy(cond(env))):
             try:
@@ -1329,6 +1344,7 @@ class Interp:
                     post_body(env)
             except BreakExc:
                 return  # continue after the loop with the state at the break
+            add_axioms(env)
             ctx.prove(inv_holds(env), f"loop{ordinal}@{s.lineno}/inv-preserved")
             if measure0 is not None:
                 m1 = ls.decreases(NS(env))
